@@ -28,30 +28,32 @@ structure GrowOk (c c' : Cbuf) (g : Nat) : Prop where
   minsize : c'.minsize = c.minsize
   maxsize : c'.maxsize = c.maxsize
   /-- growth is by at least the amount asked for, unless capped at the maximum -/
-  enough : ∀ n, (grow c n).1 = c' → n ≤ g ∨ c'.size = c.maxsize
+  enough : ∀ n (pol : Policy) [Admissible pol], (grow c n pol).1 = c' → n ≤ g ∨ c'.size = c.maxsize
   /-- bytes of replay data between i_rep and i_out are kept: nrepl unchanged -/
   nrepl : (c'.iOut + (c'.size + 1) - c'.iRep) % (c'.size + 1) = (c.iOut + (c.size + 1) - c.iRep) % (c.size + 1)
 
-theorem grow_ok {c : Cbuf} (hi : Inv c) (n : Nat) (hlt : c.size < c.maxsize) (hn : 0 < n) :
-    GrowOk c (grow c n).1 (grow c n).2 := by
+theorem grow_ok {c : Cbuf} (hi : Inv c) (n : Nat) (hlt : c.size < c.maxsize) (hn : 0 < n)
+    (pol : Policy := chunkPolicy) [hadm : Admissible pol] :
+    GrowOk c (grow c n pol).1 (grow c n pol).2 := by
   have := hi.spos; have := hi.smin; have := hi.smax; have := hi.alloc; have := hi.used
   have := hi.iin; have := hi.iout; have := hi.irep; have hio := hi.inout; have hw := hi.wrap
   have hr := hi.rep; have hds := hi.dsize
   have hne : ¬ c.size = c.maxsize := by omega
   -- the new size
-  generalize hx : Gen.CBUF_CHUNK - (c.alloc + n) % Gen.CBUF_CHUNK = x
-  have hsz : ∀ s', s' = min (c.alloc + n + x) (c.maxsize + (c.alloc - c.size)) - (c.alloc - c.size) →
+  have hpx := hadm.enough c.alloc n c.minsize c.maxsize
+  generalize hx : pol c.alloc n c.minsize c.maxsize = x at hpx
+  have hsz : ∀ s', s' = min x (c.maxsize + (c.alloc - c.size)) - (c.alloc - c.size) →
       c.size < s' ∧ s' ≤ c.maxsize ∧ (c.size + n ≤ s' ∨ s' = c.maxsize) := by
     intro s' hs'; omega
-  generalize hs' : min (c.alloc + n + x) (c.maxsize + (c.alloc - c.size)) - (c.alloc - c.size) = s' at hsz
+  generalize hs' : min x (c.maxsize + (c.alloc - c.size)) - (c.alloc - c.size) = s' at hsz
   have ⟨hs1, hs2, hs3⟩ := hsz s' rfl
-  have halloc : s' < min (c.alloc + n + x) (c.maxsize + (c.alloc - c.size)) := by omega
+  have halloc : s' < min x (c.maxsize + (c.alloc - c.size)) := by omega
   by_cases hrep : c.iRep > c.iIn
   · -- replay data wraps around the old buffer: it is moved to the new end
     have hgw : c.gotWrap = true := by rcases hw with h | h; exact h; omega
     by_cases hoi : c.iOut ≥ c.iRep
-    · have hg : grow c n =
-          ({ c with alloc := min (c.alloc + n + x) (c.maxsize + (c.alloc - c.size)), size := s',
+    · have hg : grow c n pol =
+          ({ c with alloc := min x (c.maxsize + (c.alloc - c.size)), size := s',
                     data := circWrite (c.data ++ Array.replicate (s' - c.size) 0) (s' + 1)
                               (s' + 1 - (c.size + 1 - c.iRep))
                               (circRead c.data (c.size + 1) c.iRep (c.size + 1 - c.iRep)),
@@ -97,18 +99,19 @@ theorem grow_ok {c : Cbuf} (hi : Inv c) (n : Nat) (hlt : c.size < c.maxsize) (hn
               (c.iOut + k) % (c.size + 1) := by omega
           rw [heq]
           exact getD_append_left _ _ _ (by rw [hds]; omega)
-      · intro n' hn'
+      · intro n' pol' hadm' hn'
         simp only at hs3 ⊢
         have := congrArg Cbuf.size hn'
         simp only [grow, hne, if_false, hrep, if_true] at this
-        generalize Gen.CBUF_CHUNK - (c.alloc + n') % Gen.CBUF_CHUNK = y at this
+        have hpy := hadm'.enough c.alloc n' c.minsize c.maxsize
+        generalize pol' c.alloc n' c.minsize c.maxsize = y at this hpy
         omega
       · simp only
         have := @wrap_cases (c.iOut + (s' + 1 - (c.size + 1 - c.iRep) - c.iRep) + (s' + 1) - (s' + 1 - (c.size + 1 - c.iRep))) (s' + 1) (by omega)
         have := @wrap_cases (c.iOut + (c.size + 1) - c.iRep) (c.size + 1) (by omega)
         omega
-    · have hg : grow c n =
-          ({ c with alloc := min (c.alloc + n + x) (c.maxsize + (c.alloc - c.size)), size := s',
+    · have hg : grow c n pol =
+          ({ c with alloc := min x (c.maxsize + (c.alloc - c.size)), size := s',
                     data := circWrite (c.data ++ Array.replicate (s' - c.size) 0) (s' + 1)
                               (s' + 1 - (c.size + 1 - c.iRep))
                               (circRead c.data (c.size + 1) c.iRep (c.size + 1 - c.iRep)),
@@ -137,19 +140,20 @@ theorem grow_ok {c : Cbuf} (hi : Inv c) (n : Nat) (hlt : c.size < c.maxsize) (hn
         rw [circWrite_getD_out _ (s' + 1) _ _ _ hdsz (by omega) (by rw [hmv]; omega)
               (by rw [hmm, hmv]; exact hd)]
         exact getD_append_left _ _ _ (by rw [hds]; omega)
-      · intro n' hn'
+      · intro n' pol' hadm' hn'
         simp only at hs3 ⊢
         have := congrArg Cbuf.size hn'
         simp only [grow, hne, if_false, hrep, if_true] at this
-        generalize Gen.CBUF_CHUNK - (c.alloc + n') % Gen.CBUF_CHUNK = y at this
+        have hpy := hadm'.enough c.alloc n' c.minsize c.maxsize
+        generalize pol' c.alloc n' c.minsize c.maxsize = y at this hpy
         omega
       · simp only
         have := @wrap_cases (c.iOut + (s' + 1) - (s' + 1 - (c.size + 1 - c.iRep))) (s' + 1) (by omega)
         have := @wrap_cases (c.iOut + (c.size + 1) - c.iRep) (c.size + 1) (by omega)
         omega
   · -- replay data does not wrap: the buffer is simply extended
-    have hg : grow c n =
-        ({ c with alloc := min (c.alloc + n + x) (c.maxsize + (c.alloc - c.size)), size := s',
+    have hg : grow c n pol =
+        ({ c with alloc := min x (c.maxsize + (c.alloc - c.size)), size := s',
                   data := c.data ++ Array.replicate (s' - c.size) 0 }, s' - c.size) := by
       simp only [grow, hne, if_false, hrep, hx, hs']
     rw [hg]
@@ -166,11 +170,12 @@ theorem grow_ok {c : Cbuf} (hi : Inv c) (n : Nat) (hlt : c.size < c.maxsize) (hn
       rw [Nat.mod_eq_of_lt (show c.iOut + k < s' + 1 by omega),
           Nat.mod_eq_of_lt (show c.iOut + k < c.size + 1 by omega)]
       exact getD_append_left _ _ _ (by rw [hds]; omega)
-    · intro n' hn'
+    · intro n' pol' hadm' hn'
       simp only at hs3 ⊢
       have := congrArg Cbuf.size hn'
       simp only [grow, hne, if_false, hrep] at this
-      generalize Gen.CBUF_CHUNK - (c.alloc + n') % Gen.CBUF_CHUNK = y at this
+      have hpy := hadm'.enough c.alloc n' c.minsize c.maxsize
+      generalize pol' c.alloc n' c.minsize c.maxsize = y at this hpy
       omega
     · simp only
       have h3 : c.iRep ≤ c.iOut := by
